@@ -510,6 +510,69 @@ func runC12(r *Report) {
 	if bidi == nil || udp == nil {
 		return
 	}
+	// ---- R-C12-4 the batch is written to the tunnel under the batch lock ---------------------------
+	// datagrams are appended to the batch and the batch is flushed under one mutex; a flush that writes
+	// after releasing it lets a later flush overtake it (records reordered) or overlap it (records torn)
+	{
+		anyLock := func(g *ssa.Function, in ssa.Instruction) bool {
+			for _, m := range lockSetsOf(g).HeldAll(in) {
+				if m == "W" {
+					return true
+				}
+			}
+			return false
+		}
+		nW := 0
+		for _, g := range WithAnon(udp) {
+			for _, w := range Calls(g, false, "Write") {
+				if !isWriteMethod(w) || originSummary(Recv(w)) != "freevar:tunnelConn" {
+					continue
+				}
+				// only the batching direction has a mutex at all: skip writers whose unit takes no lock
+				unitLocks := false
+				for _, u := range WithAnon(Outermost(g)) {
+					if u == g || u.Parent() == g.Parent() || u.Parent() == g {
+						Instrs(u, func(x ssa.Instruction) {
+							if ci, ok := x.(ssa.CallInstruction); ok {
+								if _, op, ok := lockOp(ci); ok && op == "Lock" {
+									unitLocks = true
+								}
+							}
+						})
+					}
+				}
+				if !unitLocks {
+					continue
+				}
+				nW++
+				held := anyLock(g, w.(ssa.Instruction))
+				if !held {
+					// a flush closure: every call of it is made with the lock held
+					sites, all := 0, true
+					for _, u := range WithAnon(udp) {
+						Instrs(u, func(x ssa.Instruction) {
+							c, ok := x.(*ssa.Call)
+							if !ok || c.Common().IsInvoke() || c.Common().StaticCallee() != nil {
+								return
+							}
+							if resolveClosure(c.Call.Value, u, 0) != g {
+								return
+							}
+							sites++
+							if !anyLock(u, c) {
+								all = false
+							}
+						})
+					}
+					held = sites > 0 && all
+				}
+				r.Ob("R-C12-4", CallPos(w), held, "the batch is written to the tunnel while the batch mutex is held (by the writer itself or by every caller of the flush closure)", r.P.FuncName(g), "flush-under-batch-lock")
+			}
+		}
+		if nW == 0 {
+			r.Fail("R-C12-4", udp.Pos(), "no batched tunnel write found in UDP (1 confirmed by hand, in the flush closure)", "UDP", "flush-under-batch-lock:anchor")
+		}
+	}
 	// ---- R-C12-1 Bidirectional ---------------------------------------------
 	n := 0
 	for _, rd := range readsInLoops(bidi) {
